@@ -33,7 +33,7 @@ def tier(default="quick"):
 
 
 def workdir(name):
-    path = os.path.join(WORK, name)
+    path = os.path.join(WORK, "%s-%d" % (name, os.getpid()))
     shutil.rmtree(path, ignore_errors=True)
     os.makedirs(path)
     return path
@@ -42,8 +42,9 @@ def workdir(name):
 def run_tlc(module, cfg, cwd=SPEC, env=None, workers=1, extra=None, timeout=3600, metadir=None,
             heap="2g"):
     """Run TLC on spec/<module>.tla with spec/<cfg>; returns (exit status, stdout)."""
-    metadir = metadir or os.path.join(WORK, "meta-%s-%d-%d" % (module, os.getpid(),
-                                                              int(time.time() * 1000) % 100000))
+    import uuid
+    metadir = metadir or os.path.join(WORK, "meta-%s-%d-%s" % (module, os.getpid(),
+                                                              uuid.uuid4().hex))
     cmd = ["java", "-XX:+UseParallelGC", "-Xmx" + heap, "-cp", TLA_CP, "tlc2.TLC",
            "-workers", str(workers), "-metadir", metadir, "-noGenerateSpecTE",
            "-config", cfg] + (extra or []) + [module]
